@@ -52,15 +52,19 @@ func threadWorker(thread *Thread, queue chan *Promise) {
 }
 
 func executeBytecodePromise(thread *Thread, queue chan *Promise, task *Promise) {
+	verifPoint(VerifTaskRun, nil, task)
 	thread.callBytecodePromise(task)
 
 	switch thread.state {
 	case awaitState:
 		awaitedPromise := (*Promise)(thread.peek().Pointer())
+		verifPoint(VerifRegister, awaitedPromise, task)
 		awaitedPromise.RegisterContinuationUnsafe(task)
+		verifPoint(VerifRegistered, awaitedPromise, task)
 
 		// promise has been locked in the VM
 		awaitedPromise.m.Unlock()
+		verifPoint(VerifUnlocked, awaitedPromise, task)
 	case errorState:
 		err := thread.popGet()
 		stackTrace := thread.GetStackTrace()
